@@ -593,13 +593,14 @@ func recipe(opsList []string, dur time.Duration, seed int64) {
 			case "Session.AddTorrent", "Session.RemoveTorrent", "Torrent.Move", "rpcHandler.handleMoveTorrent":
 				// a registry writer: insertTorrent (AddTorrent) and removeTorrentFromClient (RemoveTorrent, Move) alternate
 				add := true
+				wid := fmt.Sprintf("%s-w%d", e2.id, i) // one id per writer party: no two goroutines add/remove the same id
 				loop(i, o, func() error {
 					defer func() { add = !add }()
 					if add {
-						_, err := s.AddTorrent(bytes.NewReader(e2.tor.Bytes), &torrent.AddTorrentOptions{ID: e2.id, Stopped: o != "Session.AddTorrent"})
+						_, err := s.AddTorrent(bytes.NewReader(e2.tor.Bytes), &torrent.AddTorrentOptions{ID: wid, Stopped: o != "Session.AddTorrent"})
 						return err
 					}
-					return s.RemoveTorrent(e2.id, false)
+					return s.RemoveTorrent(wid, false)
 				})
 			case "Torrent.Stop":
 				rng2 := rand.New(rand.NewSource(seed + int64(round)))
